@@ -19,10 +19,11 @@ Local Open Scope N_scope.
 (* GF(2^8) arithmetic, polynomial x^8 + x^4 + x^3 + x + 1 (FIPS-197 4.2)       *)
 (* ------------------------------------------------------------------------- *)
 
-(* multiplication by x ({02}); input reduced to 8 bits, result < 256 *)
+(* multiplication by x ({02}).  For a < 256 the result is < 256:
+   2a if a < 128, else 2a xor 0x11b.  (Inputs >= 256 are not reduced.) *)
 Definition xtime (a : N) : N :=
-  let d := N.land (N.shiftl a 1) mask8 in
-  if N.testbit a 7 then N.lxor d 27 else d.
+  let d := N.shiftl a 1 in
+  match N.land d 256 with 0 => d | _ => N.lxor d 283 end.
 
 (* general multiplication, shift-and-add over the 8 bits of [b] *)
 Fixpoint gmul_fuel (fuel : nat) (a b acc : N) : N :=
@@ -73,18 +74,48 @@ Definition aes_inv_sbox : list N :=
    160; 224;  59;  77; 174;  42; 245; 176; 200; 235; 187;  60; 131;  83; 153;  97;
     23;  43;   4; 126; 186; 119; 214;  38; 225; 105;  20;  99;  85;  33;  12; 125].
 
-(* Two-level copies of the tables (16 rows of 16) so that a lookup walks at
-   most 15+15 list cells instead of 255.  [sbox_get (rows16 t) b = nth b t 0]
-   for b < 256 and |t| = 256 (checked exhaustively in AES_Tests.v). *)
-Definition rows16 (t : list N) : list (list N) := chunks 16%nat t.
-Definition aes_sbox_rows : list (list N) := rows16 aes_sbox.
-Definition aes_inv_sbox_rows : list (list N) := rows16 aes_inv_sbox.
+(* Table lookup through a binary trie indexed by the bits of the byte, least
+   significant bit first: 8 steps per lookup instead of walking up to 255 list
+   cells.  For a table [t] of 256 entries
+       tbl_get (tbl_build 8 t) b = nth (b mod 256) t 0
+   (checked exhaustively for both S-boxes in AES_Tests.v).  The trees are
+   closed constants: vm_compute and extracted OCaml build them once. *)
+Inductive tbl_tree : Type :=
+| TLeaf (v : N)
+| TNode (even odd : tbl_tree).
 
-Definition sbox_get (rows : list (list N)) (b : N) : N :=
-  nth (N.to_nat (N.land b 15)) (nth (N.to_nat (N.shiftr b 4)) rows []) 0.
+Fixpoint tbl_evens (l : list N) : list N :=
+  match l with a :: _ :: t => a :: tbl_evens t | _ => l end.
+Fixpoint tbl_odds (l : list N) : list N :=
+  match l with _ :: b :: t => b :: tbl_odds t | _ => [] end.
+(* [l] has 2^depth entries *)
+Fixpoint tbl_build (depth : nat) (l : list N) : tbl_tree :=
+  match depth with
+  | O => TLeaf (hd 0 l)
+  | S d => TNode (tbl_build d (tbl_evens l)) (tbl_build d (tbl_odds l))
+  end.
 
-Definition sbox (b : N) : N := sbox_get aes_sbox_rows b.
-Definition inv_sbox (b : N) : N := sbox_get aes_inv_sbox_rows b.
+Fixpoint tbl_get0 (t : tbl_tree) : N :=
+  match t with TLeaf v => v | TNode l _ => tbl_get0 l end.
+Fixpoint tbl_getp (t : tbl_tree) (p : positive) : N :=
+  match t with
+  | TLeaf v => v
+  | TNode l r =>
+    match p with
+    | xH => tbl_get0 r
+    | xO q => tbl_getp l q
+    | xI q => tbl_getp r q
+    end
+  end.
+Definition tbl_get (t : tbl_tree) (b : N) : N :=
+  match b with 0 => tbl_get0 t | Npos p => tbl_getp t p end.
+
+Definition aes_sbox_tree : tbl_tree := tbl_build 8 aes_sbox.
+Definition aes_inv_sbox_tree : tbl_tree := tbl_build 8 aes_inv_sbox.
+
+(* SubBytes / InvSubBytes on one byte *)
+Definition sbox (b : N) : N := tbl_get aes_sbox_tree b.
+Definition inv_sbox (b : N) : N := tbl_get aes_inv_sbox_tree b.
 
 (* ------------------------------------------------------------------------- *)
 (* Round transformations on a 16-byte state (FIPS-197 5.1, 5.3)               *)
